@@ -323,11 +323,8 @@ theorem api_never_panics (algo : UInt8) (key : Bytes) (count : W32) (b d : UInt8
 /-- non-vacuity -/
 example : (8 : UInt8) > 3 ∧ ¬ ((31 : UInt8) > 0x1f) ∧ ((32 : UInt8) > 0x1f) := by decide
 
-/-- The model takes `NASEncrypt` / `NASMacCalculate` to be functions of their arguments. On the facts regenerated from the source
-on this run: no function of the security packages (other than `init`) assigns a package-level variable, takes its address or
-hands out a reference to it — so there is no hidden state (a cache, a scratch buffer) through which one call could influence
-another, sequentially or concurrently. -/
+/-- statelessness of the security packages (re-decided on this run's facts; stated in C06) -/
 theorem security_stateless :
-    ∀ p ∈ Gen.Globals.writerPkgs, p ≠ "security" ∧ p ≠ "security/snow3g" ∧ p ≠ "security/zuc" := by decide
+    ∀ p ∈ Gen.Globals.writerPkgs, p ≠ "security" ∧ p ≠ "security/snow3g" ∧ p ≠ "security/zuc" := C06.security_stateless
 
 end NasVerif.Props.C08
